@@ -72,8 +72,11 @@ class NoOpTransaction(StoreTransaction):
         """
         self._pending_stages.append((stage, expected_phase))
 
-    def update_workflow_status(self, workflow: Workflow) -> None:
+    def update_workflow_status(self, workflow: Workflow, expected_status: str | None = None) -> None:
         """Buffer workflow status update when transaction completes.
+
+        ``expected_status`` is accepted for interface compatibility; this
+        non-atomic fallback cannot enforce it.
 
         Workflows are buffered and flushed when the context manager exits
         successfully. If an exception occurs, workflows are not updated.
